@@ -19,7 +19,7 @@ BUDGET = {'quick': 48000, 'thorough': 800000}
 TIME = {'quick': 100, 'thorough': 1500}
 ASSUMPTIONS = ['autodp.privacy_calibrator.ana_gaussian_mech is a recording test double (package not installed)']
 
-PRIMS = ['mech_array', 'mech_list', 'mech_dict', 'mech_dict_base', 'mst', 'adagrid', 'mwem_worst', 'helpers', 'helpers']
+PRIMS = ['mech_array', 'mech_list', 'mech_dict', 'mech_dict_base', 'mst', 'adagrid', 'mwem_worst', 'aim_worst', 'gem', 'helpers', 'helpers']
 
 logf = lambda lo, hi: st.floats(math.log(lo), math.log(hi)).map(lambda x: float(math.exp(x)))
 
@@ -134,6 +134,45 @@ def run_case(case):
                         if case['base_order'] == 'superset':
                             bd[('extra2', 8)] = 0.01
                         ret = M.exponential_mechanism(qd, eps, sens, base_measure=bd)
+            elif prim == 'gem':
+                # generalized exponential mechanism: only its inner exponential-mechanism call is a law of this property
+                # (the score transform is the library's own helper, used here as given)
+                mech = mechload.load('mechanism')
+                M = mech.Mechanism(1.0, 0, case['bounded'])
+                rng = np.random.Generator(np.random.PCG64(case['seed'] + 23))
+                ds = rng.uniform(0.5, 3.0, size=n)
+                t = 2 * np.log(n / 0.5) / eps
+                ret = M.generalized_exponential_mechanism(qs.copy(), ds.copy(), eps)
+                keys = list(range(n))
+                qs = np.asarray(mech.generalized_em_scores(qs.copy(), ds.copy(), t), dtype=float)
+                sens = 1.0
+            elif prim == 'aim_worst':
+                aim = mechload.load('aim', 5)
+                A = aim.AIM(1.0, 0)
+                rng = np.random.Generator(np.random.PCG64(case['seed'] + 29))
+                cands = {('a%d' % i,): float(rng.choice([0.5, 1.0, 2.0, 3.0])) for i in range(n)}
+                sizes = {w: int(rng.integers(1, 5)) for w in cands}
+                sigma = float(rng.uniform(0.1, 5.0))
+                ans, est_tab = {}, {}
+                tgt = np.abs(qs)
+                for i, w in enumerate(cands):
+                    ans[w] = np.abs(rng.standard_normal(sizes[w])) * 10
+                    est_tab[w] = ans[w].copy(); est_tab[w][0] += tgt[i]
+
+                class Model(object):
+                    class domain(object):
+                        @staticmethod
+                        def size(cl): return sizes[tuple(cl)]
+                    @staticmethod
+                    def project(cl):
+                        class F(object):
+                            @staticmethod
+                            def datavector(): return est_tab[tuple(cl)].copy()
+                        return F
+                ret = A.worst_approximated(cands, ans, Model, eps, sigma)
+                keys = list(cands.keys())
+                qs = np.array([cands[w] * (np.abs(ans[w] - est_tab[w]).sum() - np.sqrt(2 / np.pi) * sigma * sizes[w]) for w in keys])
+                sens = max(abs(v) for v in cands.values())
             elif prim in ('mst', 'adagrid'):
                 mod = mechload.load('mst' if prim == 'mst' else 'adaptive_grid')
                 e = eps
